@@ -1,15 +1,18 @@
 /- Line-protocol driver for the C05 model (ForML.Model.Fs, ForML.Model.Registry).
 
-  request   (run <impl> (<step> ...) <crash>)
+  request   (run <impl> (<event> ...) <crash>)
     impl    (impl <staged: true|false> <keyFirst: true|false>)
+    event   <step> | (crash <step> <k> none|<cut>)     a step run to its end / a step during which the process dies
     step    (publish <dirProj> <name> <version> (file (<byte> ...)))
             (publish <dirProj> <name> <version> (dir ((<i> (<byte> ...)) ...)))
             (train <proj> <version> <ordinal> ((<sid> (<byte> ...)) ...))
-    crash   none | (<step index> <completed atomic micro-ops of that step> none|<bytes of the next append>)
-  answer    (ok (<outcome> ...) (<fact> ...) <wf>)  outcomes of the fully executed steps, view of the final tree,
-            whether the final model tree is well formed (Fs.WF, the hypothesis of the publish theorem)
-    outcome (ok (<call> ...)) | (err invalid|mismatch|os (<call> ...))      call = (<op> ...)
+    crash   none | (<event index> <completed atomic micro-ops of that step> none|<bytes of the next append>)
+            (the event at that index must be a plain step; the events before it are played, then the step is killed)
+  answer    (ok (<outcome> ...) (<fact> ...) <wf> (<entry> ...))  outcomes of the played events, view of the final
+            tree, whether the final model tree is well formed (Fs.WF), the raw final tree
+    outcome (ok (<call> ...)) | (err invalid|mismatch|os (<call> ...)) | crashed      call = (<op> ...)
     fact    (rel p v <node>) (member p v i <node>) (gen p v g (ok ord (sid ...))|corrupt) (state p v g sid <node>|missing)
+    entry   (<path> <node>)
 -/
 import ForML.Model.Sexp
 import ForML.Model.Fs
@@ -33,6 +36,11 @@ def step? : Sexp → Option Step
   | .list [.atom "train", p, v, o, .list sts] => do
     pure (.train (← p.nat?) (← v.nat?) (← o.nat?) (← sts.mapM member?))
   | _ => none
+
+def ev? : Sexp → Option Ev
+  | .list [.atom "crash", st, k, .atom "none"] => do pure (.crash (← step? st) (← k.nat?) none)
+  | .list [.atom "crash", st, k, c] => do pure (.crash (← step? st) (← k.nat?) (some (← c.nat?)))
+  | x => (step? x).map Ev.step
 
 def bool? : Sexp → Option Bool
   | .atom "true" => some true
@@ -69,6 +77,7 @@ def opS : Op → Sexp
   | .append p b => .list [.atom "append", pathS p, Sexp.ofNats b]
   | .rename p q => .list [.atom "rename", pathS p, pathS q]
   | .copyFile p b => .list [.atom "copy", pathS p, Sexp.ofNats b]
+  | .rmtree p => .list [.atom "rmtree", pathS p]
 
 def errS : Err → Sexp
   | .invalid => .atom "invalid"
@@ -101,19 +110,36 @@ def factsOf (fs : Fs) : List Sexp :=
                                        nodeS (vis fs (stateP p v g s))])
     | _ => [])
 
+/-- every entry of the raw tree (the root excluded) -/
+def treeOf (fs : Fs) : List Sexp :=
+  (keys fs).filterMap (fun k => if k = [] then none else some (.list [pathS k, nodeS (get fs k)]))
+
+/-- play the events; outcome per event -/
+def playAll (impl : Impl) : Fs → List Ev → Fs × List Sexp
+  | fs, [] => (fs, [])
+  | fs, .step s :: rest =>
+    let o := exec impl fs s
+    let r := playAll impl o.fs rest
+    (r.1, outcomeS o :: r.2)
+  | fs, .crash s k cut :: rest =>
+    let r := playAll impl (crashIn impl fs s k cut) rest
+    (r.1, .atom "crashed" :: r.2)
+
+def answer (outs : List Sexp) (fs : Fs) : Sexp :=
+  .list [.atom "ok", .list outs, .list (factsOf fs), Sexp.ofBool (decide (WF fs)), .list (treeOf fs)]
+
 def stepC05 : Sexp → Sexp
-  | .list [.atom "run", im, .list steps, cr] =>
-    match impl? im, steps.mapM step?, crash? cr with
-    | some impl, some steps, some none =>
-      let r := execAll impl Fs.empty steps
-      .list [.atom "ok", .list (r.2.map outcomeS), .list (factsOf r.1), Sexp.ofBool (decide (WF r.1))]
-    | some impl, some steps, some (some (i, k, cut)) =>
-      match steps[i]? with
-      | none => .atom "bad-op"
-      | some s =>
-        let r := execAll impl Fs.empty (steps.take i)
-        let fs := crashIn impl r.1 s k cut
-        .list [.atom "ok", .list (r.2.map outcomeS), .list (factsOf fs), Sexp.ofBool (decide (WF fs))]
+  | .list [.atom "run", im, .list evs, cr] =>
+    match impl? im, evs.mapM ev?, crash? cr with
+    | some impl, some evs, some none =>
+      let r := playAll impl Fs.empty evs
+      answer r.2 r.1
+    | some impl, some evs, some (some (i, k, cut)) =>
+      match evs[i]? with
+      | some (.step s) =>
+        let r := playAll impl Fs.empty (evs.take i)
+        answer r.2 (crashIn impl r.1 s k cut)
+      | _ => .atom "bad-op"
     | _, _, _ => .atom "bad-op"
   | _ => .atom "bad-op"
 
